@@ -67,6 +67,7 @@ var docPool = []string{
 	"// %s has a doc comment\n// of two lines.",
 	"// %s keeps a directive-like line.\n//nolint:unused // kept on purpose",
 	"// %s mentions braces { } and a comment end */ in its doc.",
+	"// %s is described in two paragraphs.\n//\n// The second paragraph follows a blank comment line,\n// as godoc likes it.",
 }
 
 // helper declarations the user keeps in resolver files
